@@ -155,7 +155,7 @@ def run(ctx):
     ctx.prove()
     procs = 8
     # ---------------------------------------------------------------- request gate
-    gcases = gate_cases(ctx.rng, ctx.n(1200, 6000))
+    gcases = gate_cases(ctx.rng, ctx.n(1200, 20000))
     gres = x_c20.run_jobs([dict(kind="gate", cases=gcases)], ctx.scratch(), procs=1)[0]
     if gres.get("driver_error") or "results" not in gres:
         ctx.obligation("driver-ran:gate", False, str(gres)[:1500])
@@ -189,12 +189,30 @@ def run(ctx):
             for b in bad[:3]:
                 ctx.violation("request gate differs from the model", dict(kind="gate", case=gcases[b], result=gres["results"][b]),
                               no_input=False)
+    # ---------------------------------------------------------------- witness of C20_size_bound_strong_refuted
+    # (outside the literal property text: recorded, never a VIOLATION unless known_findings.json lists it as known)
+    SIG = "C20: negative Content-Length reaches the handler, which reads the body until EOF"
+    nres = x_c20.run_jobs([dict(kind="neglen", declared="-1", body=300000, max_len=1000),
+                           dict(kind="neglen", declared="2000", body=300000, max_len=1000)], ctx.scratch(), procs=1)
+    ctx.extra["negative_content_length_witness"] = nres
+    try:
+        read_neg = max(nres[0].get("bytes_read_by_handler") or [0])
+        if read_neg > 1000:
+            ctx.notes.append("observation (stronger reading of 'bounds request size', not the property text): PUT with "
+                             "Content-Length: -1 and max_content_length=1000 -> the handler read %d body bytes; the same body "
+                             "declared as 2000 bytes -> status %s, %r bytes read" % (
+                                 read_neg, nres[1].get("status"), nres[1].get("bytes_read_by_handler")))
+            if any(k.get("property") == "C20" and k.get("signature") == SIG and k.get("status") == "known"
+                   for k in ctx.known.get("findings", [])):
+                ctx.violation(SIG, dict(kind="neglen", witness=nres[0]), signature=SIG)
+    except Exception as e:   # the witness is informative only
+        ctx.notes.append("negative-length witness not evaluated: %r" % (e,))
     # ---------------------------------------------------------------- scripts against serve()
     seen = {}
-    jobs = make_jobs(ctx, ctx.n(72, 1200))
+    jobs = make_jobs(ctx, ctx.n(72, 4000))
     run_scripts(ctx, jobs, "lockstep", procs, seen)
     # ---------------------------------------------------------------- the same server, free-running (real timing)
-    fjobs = make_jobs(ctx, ctx.n(48, 720))
+    fjobs = make_jobs(ctx, ctx.n(48, 2400))
     for j in fjobs:
         j["lockstep"] = False
     run_scripts(ctx, fjobs, "free", procs, seen)
